@@ -8,6 +8,8 @@ Streams (all seeded from VERIF_SEED):
   charref-direct handle_charref called directly with names over [0-9a-fA-FxX] and every document encoding shape.
   dammit         an instrumented UnicodeDammit against the model of its two passes.
   fault          a harness TreeBuilder that rejects the first k strategies after j events: final tree == clean parse.
+  tokenizer-pipeline  the real constructor vs the Lean pipeline tokenizer MODEL -> handlers -> construction machine (`c06 pipe`): outcome
+                 class and tree; the marked-section characterisation (`RaisesAt`) in Python vs Lean and against the real outcome.
 """
 import copy
 import json
@@ -41,15 +43,15 @@ MANIFEST = dict(
           "(classes raised must be recorded kinds); injection of every class at every primitive on several documents against `predict`; "
           "UnicodeDammit with individual lookups/decodings/the generator/the log call made to raise against `dammitE`; an instrumented "
           "UnicodeDammit against the model of its passes; fault injection through a harness TreeBuilder (k rejected strategies, acceptance, and MORE strategies offered after the accepted one: the loop stops at the first acceptance); histories across documents and retries (unclosed void elements first, stray end tags between text after; fresh/shared builder), each in its own interpreter, tree node by node against the same markup parsed alone in a fresh interpreter; "
-          "a render stream (trees holding <meta> charset declarations rendered for every output-encoding name shape: the tree's own original_encoding incl. every digit-named codec alias given as from_encoding or declared by the page, ordinary and Python-specific codecs, names special in regex templates; each declaration keeps its prefix and gets the name literally, stated over the live pattern's matches); deep-nesting families around and above the recursion limit with whitespace-preserving elements and string containers; documents empty after the byte-order mark x names that are no text codec; direct oracle (original_encoding names a text codec; no other exception; tree well linked, renderable incl. in its own original encoding, searchable, copyable; ParserRejectedMarkup only with a cause)."),
+          "a render stream (trees holding <meta> charset declarations rendered for every output-encoding name shape: the tree's own original_encoding incl. every digit-named codec alias given as from_encoding or declared by the page, ordinary and Python-specific codecs, names special in regex templates; each declaration keeps its prefix and gets the name literally, stated over the live pattern's matches); deep-nesting families around and above the recursion limit with whitespace-preserving elements and string containers; documents empty after the byte-order mark x names that are no text codec; direct oracle (original_encoding names a text codec; no other exception; tree well linked, renderable incl. in its own original encoding, searchable, copyable; ParserRejectedMarkup only with a cause). OVER THE TOKENIZER MODEL (Model/Tokenizer.lean, the code mirror of CPython's html.parser tied to it by ./check TK; Model/EnvelopeTokenizer.lean; Props/C06 section TokenizerModel): the parse is no longer a recorded callback stream there - `feedClose` = text -> tokenizer model -> bs4's handlers (Adapter.toEvents) -> construction machine (Builder.build), and PROVED for every text, every behaviour of html.unescape/str.lower as total functions and every handler/builder configuration: pipeline_outcome / pipeline_total (exactly one of {tree = build of the text's events, ParserRejectedMarkup}; the only raise of the tokenizer model is parse_marked_section's AssertionError; no loop runs out of fuel), pipeline_tree_well_linked (C03's Good heap, tag stack [0], all stacks and the buffer empty, at the events of every text), rejected_only_if_marked_section (a rejected text contains, at some index, `<![` followed by a non-letter, or by a name + whitespace + one more character whose lowered name is none of the EIGHT keywords of CPython 3.12 - temp cdata ignore include rcdata if else endif; no closing delimiter is needed), accepted_if_no_raising_section, marked_section_raises_iff and turn_rejects_iff (EXACT, both directions, per call of parse_marked_section and per turn of goahead's loop: normal mode and the first `<`/`&` of the buffer starts such a suffix), rejected_if_plain_prefix (the converse at run level when only plain text precedes the section), rejected_texts_leave_no_trace / all_texts_rejected_no_document (k texts rejected part-way, then a text that parses: the document is the parse of that text alone - composed with C03 rejected_strategies_leave_no_trace), tokenizer_model_raises_only_assertion, tokenizer_phases_are_run, envelope_live_tokenizer_model (the envelope with both tokenizer primitives REPLACED by the tokenizer model: the hypothesis about the tokenizer is discharged). NOT proved: the run-level `if` direction in general (rejected <-> SOME turn of the run is a raising turn needs the list of turns of a run as an object). Tie: stream tokenizer-pipeline - str texts of every C06 generator (bytes inputs as latin-1 text), a directed family around `<![` (43 keywords x 20 tails alone and in 36 contexts: comments, CDATA, script/style, attribute values, declarations, PIs, end of input) and sections spliced into generated texts, through the real constructor and through `c06 pipe` (the same feedClose): same outcome class, same tree incl. attributes and positions; the Python statement of RaisesAt = the model's (`c06 raises`); rejected => a RaisesAt index exists, RaisesAt at the first markup => rejected, checked on the real outcome."),
     design="7/C06",
     note=("PARTIAL. Trusted residue, named: `Prims.Within Gen.C06.recorded` - CPython's codecs.lookup raises only LookupError/ValueError/"
           "UnicodeEncodeError; str(bytes,codec,errors) only LookupError/ValueError/UnicodeEncodeError/UnicodeDecodeError/UnicodeError; html.parser's "
-          "goahead only AssertionError/ValueError; int() only ValueError; chr() only ValueError/OverflowError; one-byte decodes only "
+          "goahead only AssertionError/ValueError (for the Lean tokenizer MODEL this is now a theorem - only AssertionError, tokenizer_model_raises_only_assertion / envelope_live_tokenizer_model - and what is left to measurement is (i) that the model is CPython's tokenizer: equality of callback streams and outcome class on every text of ./check TK and of stream tokenizer-pipeline, (ii) html.unescape inside parse_starttag, a total parameter of the model, really raising ValueError on an over-long decimal reference: measured, class `html.unescape-raises`); int() only ValueError; chr() only ValueError/OverflowError; one-byte decodes only "
           "UnicodeDecodeError/UnicodeError; warnings.warn (filters not 'error'), Logger.warning, find_declared_encoding, reset, the parser "
           "constructor and the tree-building callbacks (C03/C04's models) never raise. Measured on every run: each primitive is wrapped and the exact "
           "classes it raises are compared with these lists. That the tree is well linked for every event sequence is C03's theorem "
-          "(parsed_document_well_linked); renderable/searchable/copyable is the Python oracle here and C05/C08/C10/C11/C12's theorems. Non-str/bytes "
+          "(parsed_document_well_linked); renderable/searchable/copyable is the Python oracle here and C05/C08/C10/C11/C12's theorems. Still measured, not modelled: CPython codecs' raise kinds (codecs.lookup, str(bytes,codec,errors), one-byte decodes), html.unescape, the interpreter's recursion limit on deep trees (post-construction operations). Non-str/bytes "
           "markup (TypeError by design) and non-str encoding arguments are outside the quantifier and only recorded."),
     technique="Lean 4 proof with explicit exception classes + generated tables from the live objects (field sets, MROs, injection matrix) + differential correspondence + direct Python oracle + fault injection at builder and primitive level",
 )
@@ -2042,7 +2044,10 @@ def run(ctx: Ctx):
                 "fault: k >= 1 rejected strategies")
     ctx.assumptions = [
         "CPython's html.parser tokenizer raises nothing but AssertionError/ValueError: measured on every generated input by a plain HTMLParser run "
-        "(distribution tok:*), hypothesis of constructor_outcome",
+        "(distribution tok:*), hypothesis of constructor_outcome; for the Lean tokenizer model it is proved (section TokenizerModel) and the model is "
+        "tied to the real constructor by stream tokenizer-pipeline (outcome class and tree) and to html.parser's callbacks by ./check TK",
+        "stream tokenizer-pipeline: html.unescape, str.lower and the html5 entity table are parameters of the model answered by the standard library per "
+        "text; texts longer than 3000 characters or with more than 250 '<' are left to the construct stream (the tree printer recurses)",
         "handle_charref is only called with names matching [0-9]+|[xX][0-9a-fA-F]+ (measured: names_ok)",
         "the handlers other than handle_charref do not raise (C04's models); measured by the outcome oracle",
         "feed writes only attributes that reset()/initialize_soup/the loop header re-assign: instrumented into Gen.feedTouches on every run and measured "
